@@ -864,3 +864,10 @@ v('C04', 'buildjoin-idents-exchanged', 'c04.side-plumbing', (P, 'rs, err := Exec
 v('C04', 'bucket-restarted-for-a-present-key', 'c04.bucket-once', (J, """		if _, ok := hashedTable.Keys[hash]; !ok {
 			hashedTable.Rows[hash] = make([]*any, 0)""", """		if _, ok := hashedTable.Rows[hash]; ok {
 			hashedTable.Rows[hash] = make([]*any, 0)"""))
+v('C12', 'plain-document-copy-stops-at-an-engine-entry', 'c12.plain-document', (H, """		if _, ok := value.(CteEvaluation); ok || key == "<-" {
+			continue
+		}
+		copy[key] = value""", """		if _, ok := value.(CteEvaluation); ok || key == "<-" {
+			break
+		}
+		copy[key] = value"""))
